@@ -565,6 +565,11 @@ func (in *Interp) visit(fr *frame, instr ssa.Instruction) cont {
 	case *ssa.Next:
 		fr.set(instr, fr.get(instr.Iter).(iterator).next())
 	case *ssa.FieldAddr:
+		if n, isN := fr.get(instr.X).(Native); isN {
+			// read-only view of an exported field of a native struct (e.g. an embedded interface)
+			fr.set(instr, in.nativeFieldCell(n, instr.Field))
+			break
+		}
 		p, ok := fr.get(instr.X).(*Value)
 		if !ok {
 			panic(abortPath{"unsupported", fmt.Sprintf("field address in %T (%v)", fr.get(instr.X), instr.X.Type())})
